@@ -12,6 +12,8 @@ for d in sorted(os.listdir(os.path.join(ROOT, "seeded"))):
     for tier in ("quick", "thorough"):
         for pid, x in sorted(r.get(tier, {}).items()):
             cells.append("%s/%s: %s" % (pid, tier, ("caught — " + x["by"]) if x["caught"] else ("MISSED (rc %s)" % x["rc"])))
+    if m.get("neutralised_by_fix"):
+        cells = ["no longer a violation on the repaired tree (" + m["neutralised_by_fix"][:160] + "…); was caught before the fix" ]
     rows.append((d, m["property"], ", ".join(m.get("files", [])), m.get("summary", "").replace("\n", " ").replace("|", "/")[:260],
                  m.get("needs", "").replace("\n", " ").replace("|", "/")[:260], "; ".join(cells) or "not run yet"))
 out = ["# Seeded breaking changes (written by independent sub-agents that saw only the property text)", "",
@@ -20,7 +22,7 @@ out = ["# Seeded breaking changes (written by independent sub-agents that saw on
        "| id | property | files | change | needs | outcome |", "|---|---|---|---|---|---|"]
 for r in rows:
     out.append("| %s | %s | %s | %s | %s | %s |" % r)
-n = len(rows); c = sum("caught" in r[5] and "MISSED" not in r[5] for r in rows); miss = sum("MISSED" in r[5] for r in rows)
-out += ["", "%d changes; caught by the owning property's quick check: %d; missed: %d; not run yet: %d" % (n, c, miss, n - c - miss)]
+n = len(rows); neut = sum("no longer a violation" in r[5] for r in rows); c = sum("caught —" in r[5] and "MISSED" not in r[5] for r in rows); miss = sum("MISSED" in r[5] for r in rows)
+out += ["", "%d changes; caught by the owning property's quick check: %d; missed: %d; neutralised by a later fix commit: %d; not run yet: %d" % (n, c, miss, neut, n - c - miss - neut)]
 open(os.path.join(ROOT, "seeded", "REPORT.md"), "w").write("\n".join(out) + "\n")
 print(out[-1])
